@@ -25,9 +25,9 @@ theorem rehash_lt (h64 nb : Nat) : rehash h64 nb < 2 ^ nb := by
 
 /-! ## `setBk` -/
 
-theorem bk_setBk (s : State) (T b : Nat) (B : Bucket) (T' b' : Nat) :
+theorem bk_setBk (s : Store) (T b : Nat) (B : Bucket) (T' b' : Nat) :
     (s.setBk T b B).bk T' b' = if T' = T ∧ b' = b then B else s.bk T' b' := by
-  unfold State.setBk State.bk
+  unfold Store.setBk Store.bk
   by_cases hT : T' = T
   · subst hT
     by_cases hb : b' = b
@@ -35,120 +35,118 @@ theorem bk_setBk (s : State) (T b : Nat) (B : Bucket) (T' b' : Nat) :
     · simp [upd_apply, hb]
   · simp [upd_apply, hT]
 
-@[simp] theorem used_setBk (s : State) (T b : Nat) (B : Bucket) (T' : Nat) :
+@[simp] theorem used_setBk (s : Store) (T b : Nat) (B : Bucket) (T' : Nat) :
     ((s.setBk T b B).tab T').used = (s.tab T').used := by
-  unfold State.setBk
+  unfold Store.setBk
   by_cases hT : T' = T
   · subst hT; simp
   · simp [upd_apply, hT]
 
-@[simp] theorem next_setBk (s : State) (T b : Nat) (B : Bucket) (T' : Nat) :
+@[simp] theorem next_setBk (s : Store) (T b : Nat) (B : Bucket) (T' : Nat) :
     ((s.setBk T b B).tab T').next = (s.tab T').next := by
-  unfold State.setBk
+  unfold Store.setBk
   by_cases hT : T' = T
   · subst hT; simp
   · simp [upd_apply, hT]
 
-@[simp] theorem top_setBk (s : State) (T b : Nat) (B : Bucket) : (s.setBk T b B).top = s.top := rfl
-@[simp] theorem nb0_setBk (s : State) (T b : Nat) (B : Bucket) : (s.setBk T b B).nb0 = s.nb0 := rfl
-@[simp] theorem hf_setBk (s : State) (T b : Nat) (B : Bucket) : (s.setBk T b B).hf = s.hf := rfl
-@[simp] theorem thr_setBk (s : State) (T b : Nat) (B : Bucket) : (s.setBk T b B).thr = s.thr := rfl
-@[simp] theorem abs_setBk (s : State) (T b : Nat) (B : Bucket) : (s.setBk T b B).abs = s.abs := rfl
-@[simp] theorem kheld_setBk (s : State) (T b : Nat) (B : Bucket) : (s.setBk T b B).kheld = s.kheld := rfl
-@[simp] theorem time_setBk (s : State) (T b : Nat) (B : Bucket) : (s.setBk T b B).time = s.time := rfl
-@[simp] theorem hint_setBk (s : State) (T b : Nat) (B : Bucket) : (s.setBk T b B).hint = s.hint := rfl
-@[simp] theorem maxb_setBk (s : State) (T b : Nat) (B : Bucket) : (s.setBk T b B).maxb = s.maxb := rfl
+@[simp] theorem top_setBk (s : Store) (T b : Nat) (B : Bucket) : (s.setBk T b B).top = s.top := rfl
+@[simp] theorem nb0_setBk (s : Store) (T b : Nat) (B : Bucket) : (s.setBk T b B).nb0 = s.nb0 := rfl
+@[simp] theorem hf_setBk (s : Store) (T b : Nat) (B : Bucket) : (s.setBk T b B).hf = s.hf := rfl
+@[simp] theorem abs_setBk (s : Store) (T b : Nat) (B : Bucket) : (s.setBk T b B).abs = s.abs := rfl
+@[simp] theorem kheld_setBk (s : Store) (T b : Nat) (B : Bucket) : (s.setBk T b B).kheld = s.kheld := rfl
+@[simp] theorem hint_setBk (s : Store) (T b : Nat) (B : Bucket) : (s.setBk T b B).hint = s.hint := rfl
+@[simp] theorem maxb_setBk (s : Store) (T b : Nat) (B : Bucket) : (s.setBk T b B).maxb = s.maxb := rfl
 
 /-! ## the observables after each primitive mutation -/
 
 section obs
-variable (s : State) (T b : Nat) (T' b' : Nat)
+variable (s : Store) (T b : Nat) (T' b' : Nat)
 
 theorem items_setLock (v : Nat) : ((s.setLock T b v).bk T' b').items = (s.bk T' b').items := by
-  unfold State.setLock; rw [bk_setBk]; split
+  unfold Store.setLock; rw [bk_setBk]; split
   · rename_i h; rw [h.1, h.2]
   · rfl
 
 theorem len_setLock (v : Nat) : ((s.setLock T b v).bk T' b').len = (s.bk T' b').len := by
-  unfold State.setLock; rw [bk_setBk]; split
+  unfold Store.setLock; rw [bk_setBk]; split
   · rename_i h; rw [h.1, h.2]
   · rfl
 
 theorem lock_setLock (v : Nat) :
     ((s.setLock T b v).bk T' b').lock = if T' = T ∧ b' = b then v else (s.bk T' b').lock := by
-  unfold State.setLock; rw [bk_setBk]; split <;> rfl
+  unfold Store.setLock; rw [bk_setBk]; split <;> rfl
 
 theorem lock_pushFront (it : Item) : ((s.pushFront T b it).bk T' b').lock = (s.bk T' b').lock := by
-  unfold State.pushFront; rw [bk_setBk]; split
+  unfold Store.pushFront; rw [bk_setBk]; split
   · rename_i h; rw [h.1, h.2]
   · rfl
 
 theorem items_pushFront (it : Item) :
     ((s.pushFront T b it).bk T' b').items = if T' = T ∧ b' = b then it :: (s.bk T b).items else (s.bk T' b').items := by
-  unfold State.pushFront; rw [bk_setBk]; split <;> rfl
+  unfold Store.pushFront; rw [bk_setBk]; split <;> rfl
 
 theorem len_pushFront (it : Item) :
     ((s.pushFront T b it).bk T' b').len = if T' = T ∧ b' = b then (s.bk T b).len + 1 else (s.bk T' b').len := by
-  unfold State.pushFront; rw [bk_setBk]; split <;> rfl
+  unfold Store.pushFront; rw [bk_setBk]; split <;> rfl
 
 theorem lock_eraseIt (it : Item) : ((s.eraseIt T b it).bk T' b').lock = (s.bk T' b').lock := by
-  unfold State.eraseIt; rw [bk_setBk]; split
+  unfold Store.eraseIt; rw [bk_setBk]; split
   · rename_i h; rw [h.1, h.2]
   · rfl
 
 theorem items_eraseIt (it : Item) :
     ((s.eraseIt T b it).bk T' b').items = if T' = T ∧ b' = b then (s.bk T b).items.erase it else (s.bk T' b').items := by
-  unfold State.eraseIt; rw [bk_setBk]; split <;> rfl
+  unfold Store.eraseIt; rw [bk_setBk]; split <;> rfl
 
 theorem len_eraseIt (it : Item) :
     ((s.eraseIt T b it).bk T' b').len = if T' = T ∧ b' = b then (s.bk T b).len - 1 else (s.bk T' b').len := by
-  unfold State.eraseIt; rw [bk_setBk]; split <;> rfl
+  unfold Store.eraseIt; rw [bk_setBk]; split <;> rfl
 
 @[simp] theorem used_setLock (v : Nat) : ((s.setLock T b v).tab T').used = (s.tab T').used := by
-  unfold State.setLock; simp
+  unfold Store.setLock; simp
 @[simp] theorem next_setLock (v : Nat) : ((s.setLock T b v).tab T').next = (s.tab T').next := by
-  unfold State.setLock; simp
+  unfold Store.setLock; simp
 @[simp] theorem used_pushFront (it : Item) : ((s.pushFront T b it).tab T').used = (s.tab T').used := by
-  unfold State.pushFront; simp
+  unfold Store.pushFront; simp
 @[simp] theorem next_pushFront (it : Item) : ((s.pushFront T b it).tab T').next = (s.tab T').next := by
-  unfold State.pushFront; simp
+  unfold Store.pushFront; simp
 @[simp] theorem used_eraseIt (it : Item) : ((s.eraseIt T b it).tab T').used = (s.tab T').used := by
-  unfold State.eraseIt; simp
+  unfold Store.eraseIt; simp
 @[simp] theorem next_eraseIt (it : Item) : ((s.eraseIt T b it).tab T').next = (s.tab T').next := by
-  unfold State.eraseIt; simp
+  unfold Store.eraseIt; simp
 
 @[simp] theorem bk_decUsed : ((s.decUsed T).bk T' b') = s.bk T' b' := by
-  unfold State.decUsed State.bk
+  unfold Store.decUsed Store.bk
   by_cases hT : T' = T
   · subst hT; simp
   · simp [upd_apply, hT]
 
 theorem used_decUsed : ((s.decUsed T).tab T').used = if T' = T then (s.tab T).used - 1 else (s.tab T').used := by
-  unfold State.decUsed
+  unfold Store.decUsed
   by_cases hT : T' = T
   · subst hT; simp
   · simp [upd_apply, hT]
 
 @[simp] theorem next_decUsed : ((s.decUsed T).tab T').next = (s.tab T').next := by
-  unfold State.decUsed
+  unfold Store.decUsed
   by_cases hT : T' = T
   · subst hT; simp
   · simp [upd_apply, hT]
 
 @[simp] theorem bk_setNext (v : Nat) : ((s.setNext T v).bk T' b') = s.bk T' b' := by
-  unfold State.setNext State.bk
+  unfold Store.setNext Store.bk
   by_cases hT : T' = T
   · subst hT; simp
   · simp [upd_apply, hT]
 
 @[simp] theorem used_setNext (v : Nat) : ((s.setNext T v).tab T').used = (s.tab T').used := by
-  unfold State.setNext
+  unfold Store.setNext
   by_cases hT : T' = T
   · subst hT; simp
   · simp [upd_apply, hT]
 
 theorem next_setNext (v : Nat) : ((s.setNext T v).tab T').next = if T' = T then v else (s.tab T').next := by
-  unfold State.setNext
+  unfold Store.setNext
   by_cases hT : T' = T
   · subst hT; simp
   · simp [upd_apply, hT]
@@ -157,34 +155,34 @@ end obs
 
 /-! ## resize -/
 
-theorem bk_resize (s : State) (T b : Nat) :
+theorem bk_resize (s : Store) (T b : Nat) :
     (s.resize).bk T b = if T = s.top + 1 then ({} : Bucket) else s.bk T b := by
-  unfold State.resize State.bk
+  unfold Store.resize Store.bk
   by_cases h1 : T = s.top + 1
   · subst h1; simp
   · by_cases h2 : T = s.top
     · subst h2; simp [upd_apply]
     · simp [upd_apply, h1, h2]
 
-theorem next_resize (s : State) (T : Nat) :
+theorem next_resize (s : Store) (T : Nat) :
     ((s.resize).tab T).next = if T = s.top + 1 then s.top else (s.tab T).next := by
-  unfold State.resize
+  unfold Store.resize
   by_cases h1 : T = s.top + 1
   · subst h1; simp
   · by_cases h2 : T = s.top
     · subst h2; simp [upd_apply]
     · simp [upd_apply, h1, h2]
 
-theorem used_resize (s : State) (T : Nat) :
+theorem used_resize (s : Store) (T : Nat) :
     ((s.resize).tab T).used = if T = s.top + 1 then 0 else if T = s.top then ((s.usedCount s.top : Nat) : Int) else (s.tab T).used := by
-  unfold State.resize
+  unfold Store.resize
   by_cases h1 : T = s.top + 1
   · subst h1; simp
   · by_cases h2 : T = s.top
     · subst h2; simp [upd_apply]
     · simp [upd_apply, h1, h2]
 
-@[simp] theorem top_resize (s : State) : s.resize.top = s.top + 1 := rfl
+@[simp] theorem top_resize (s : Store) : s.resize.top = s.top + 1 := rfl
 
 /-! ## counting -/
 
